@@ -560,6 +560,13 @@ func (h *httpServerHandler) handleGet(ctx context.Context, w http.ResponseWriter
 		return
 	}
 
+	// A listening stream belongs to a session: refuse it when sessions are disabled
+	// (there is no session manager to look the id up in).
+	if !h.enableSession || h.sessionManager == nil {
+		http.Error(w, "GET method not supported without sessions", http.StatusMethodNotAllowed)
+		return
+	}
+
 	// Check if there's a session ID
 	sessionID := r.Header.Get(httputil.SessionIDHeader)
 	if sessionID == "" {
